@@ -301,7 +301,16 @@ def e2e_config(geo, P, wd, xmax, ymax):
 def e2e_run(cp, itf, geo, P, wd, xmax, ymax):
     cfg = cp.parse_config_dict(e2e_config(geo, P, wd, xmax, ymax))
     t = cfg.towers[0]
-    r = itf.run_bldfm_single(cfg, t)
+    if P.get("cached"):
+        # through a result cache: the first call solves and stores, the second is served from the store — the
+        # footprint examined is the one a repeated run hands to the user
+        import tempfile
+        from bldfm.cache import GreensFunctionCache
+        cache = GreensFunctionCache(tempfile.mkdtemp(prefix="c08cache_", dir=os.getcwd()))
+        itf.run_bldfm_single(cfg, t, cache=cache)
+        r = itf.run_bldfm_single(cfg, t, cache=cache)
+    else:
+        r = itf.run_bldfm_single(cfg, t)
     X, Y = np.squeeze(np.asarray(r["grid"][0], float)), np.squeeze(np.asarray(r["grid"][1], float))
     f = np.squeeze(np.asarray(r["flx"], float))
     if f.shape != X.shape or not np.all(np.isfinite(f)):
@@ -381,10 +390,12 @@ def smoke(ctx, cp, itf, geo):
     base = {"mol": 1e9, "U": 4.0, "ustar": 0.4, "zm": 3.0, "grid": "square", "halo_mult": 2.0, "ref": (50.95, 11.586)}
     plan = [("MOST", "square", [0.0, 90.0, 180.0, 270.0, 30.0, 135.0, 200.0, 310.0]),
             ("OAAHOC", "square", [0.0, 120.0, 250.0]), ("MOSTM", "oblong-y-anisotropic-cells", [60.0, 200.0]),
-            ("CONSTANT", "oblong-x", [120.0, 315.0])]
+            ("CONSTANT", "oblong-x", [120.0, 315.0]), ("MOST:cached", "square", [30.0, 200.0])]
     n, worst = 0, None
     for closure, grid, dirs in plan:
-        P = dict(base, closure=closure, grid=grid)
+        P = dict(base, closure=closure.split(":")[0], grid=grid)
+        if closure.endswith(":cached"):
+            P["cached"] = True
         try:
             status, recs = sweep_one(cp, itf, geo, P, dirs)
         except Exception as e:
@@ -495,6 +506,10 @@ def e2e_space(ctx):
                 else:
                     P["ustar"] = U / (8.0 if (mi + ui) % 2 else 12.0)
                 out.append(P)
+                if (ci + mi + ui) % 3 == 0:
+                    Q = dict(P)
+                    Q["cached"] = True  # the footprint a repeated run gets from the result cache
+                    out.append(Q)
                 if c != "CONSTANT" and (ci + mi + ui) % 2 == 0:
                     Q = dict(P)
                     Q["halo_mult"] = None  # the solver's default halo = max(xmax, ymax)
